@@ -51,6 +51,7 @@ M2_DEPS = [('a',), ('b',), ('a', 'b'), ('p:bounds',), ('m1',), ('m1', 'b')]
 OTHER = {('a',): ('b',), ('b',): ('a',), ('a', 'b'): ('a',), ('p:bounds',): ('a',),
          ('a', 'p:bounds'): ('b',), ('m1',): ('b',), ('m1', 'b'): ('a',)}
 KINDS = ['-', 'same', 'other', 'undec']          # override kinds of one method in one subclass
+KINDS5 = KINDS + ['nowatch']                     # + decorated without watch (core / sampled families only)
 
 SHAPES = {
     # name: list of (class name, base names); the first class is the root carrying the parameters
@@ -95,6 +96,8 @@ def family_spec(shape, m1, m2, ov):
                     d[mname] = ('dec', base[0], base[1])
                 elif k == 'other':
                     d[mname] = ('dec', OTHER[base[0]], base[1])
+                elif k == 'nowatch':      # decorated with the same dependencies but without watch=True
+                    d[mname] = ('decnw', base[0], False)
                 elif k == 'undec':
                     d[mname] = ('undec',)
         spec[cname] = d
@@ -106,7 +109,7 @@ def valid_family(shape, m1, m2, ov):
     spec = family_spec(shape, m1, m2, ov)
     for c, _b in SHAPES[shape]:
         d = spec[c]['m2']
-        if d is not None and d[0] == 'dec' and 'm1' in d[1] and resolved(shape, spec, c, 'm1')[1] is None:
+        if d is not None and d[0] in ('dec', 'decnw') and 'm1' in d[1] and resolved(shape, spec, c, 'm1')[1] is None:
             return False
     return True
 
@@ -140,6 +143,8 @@ def family_source(shape, spec):
             if d[0] == 'dec':
                 body.append("@param.depends(%s, watch=True%s)" % (
                     ', '.join(repr(x) for x in d[1]), ', on_init=True' if d[2] else ''))
+            elif d[0] == 'decnw':
+                body.append("@param.depends(%s)" % ', '.join(repr(x) for x in d[1]))
             body.append("def %s(self): LOG.append('%s.%s')" % (mname, cname, mname))
         if not body:
             body = ["pass"]
@@ -214,13 +219,13 @@ def deps_of(shape, spec, cname, mname, root_deps_only=False):
     fuzzy: a named method resolves to an undecorated definition -> 'depends on everything'."""
     c, d = resolved(shape, spec, cname, mname)
     out, fuzzy, via = set(), False, False
-    if d is None or d[0] != 'dec':
+    if d is None or d[0] not in ('dec', 'decnw'):
         return out, fuzzy, via
     for s in d[1]:
         if s in ('m1', 'm2'):
             via = True
             c2, d2 = resolved(shape, spec, cname, s)
-            if d2 is None or d2[0] != 'dec':
+            if d2 is None or d2[0] not in ('dec', 'decnw'):
                 fuzzy = True
             else:
                 sub, f2, _ = deps_of(shape, spec, cname, s)
@@ -242,7 +247,7 @@ def deps_static(shape, spec, defcls, mname):
     for s in d[1]:
         if s in ('m1', 'm2'):
             c2, d2 = resolved(shape, spec, defcls, s)
-            if d2 is not None and d2[0] == 'dec':
+            if d2 is not None and d2[0] in ('dec', 'decnw'):
                 sub, f2 = deps_static(shape, spec, c2, s)
                 out |= sub
                 fuzzy = fuzzy or f2
@@ -375,8 +380,6 @@ def run_family(task):
                         viols.append(dict(shape=shape, m1=m1, m2=m2, ov=ov, cls=cname, ctor=ctor_kw,
                                           prog=tuple(prog[:i + 1]), step=i, op=op, site=site,
                                           got=g, lo=lo, hi=hi))
-                    if bad:
-                        break
                 # classify via-method discrepancies (needs the live object)
                 for v in viols:
                     if v.get('_done'):
@@ -525,9 +528,9 @@ def all_families(shape):
             yield (shape, m1, m2, dict(zip(subs, combo)))
 
 
-def n_families(shape):
+def n_families(shape, nk=4):
     n = len(SHAPES[shape]) - 1
-    return sum((16 if m2 is not None else 4) ** n for _m1, m2 in base_configs())
+    return sum((nk * nk if m2 is not None else nk) ** n for _m1, m2 in base_configs())
 
 
 def core_families(shape, maxpos, on_init):
@@ -539,7 +542,7 @@ def core_families(shape, maxpos, on_init):
         positions = [(c, j) for c in subs for j in ((0, 1) if m2 is not None else (0,))]
         for npos in range(0, maxpos + 1):
             for pos in itertools.combinations(positions, npos):
-                for kinds in itertools.product(KINDS[1:], repeat=npos):
+                for kinds in itertools.product(KINDS5[1:], repeat=npos):
                     ov = {c: ['-', '-'] for c in subs}
                     for (c, j), k in zip(pos, kinds):
                         ov[c][j] = k
@@ -549,7 +552,7 @@ def core_families(shape, maxpos, on_init):
 def random_family(shape, rnd, bases):
     subs = [c for c, _ in SHAPES[shape][1:]]
     m1, m2 = rnd.choice(bases)
-    ov = {c: (rnd.choice(KINDS), rnd.choice(KINDS) if m2 is not None else '-') for c in subs}
+    ov = {c: (rnd.choice(KINDS5), rnd.choice(KINDS5) if m2 is not None else '-') for c in subs}
     return (shape, m1, m2, ov)
 
 
@@ -564,8 +567,8 @@ def enumerate_tasks(tier, seed):
     families with few overriding positions (always included) + a seeded sample of the rest."""
     rnd = random.Random(1000 + seed)
     tasks, exhaustive, counts = [], True, {}
-    full = {'quick': ('chain1', 'chain2'), 'thorough': ('chain1', 'chain2', 'chain3', 'vee')}[tier]
-    budget = {'quick': 800, 'thorough': 8000}[tier]     # sampled families per big shape
+    full = {'quick': ('chain1', 'chain2'), 'thorough': ('chain1', 'chain2', 'chain3')}[tier]
+    budget = {'quick': 500, 'thorough': 8000}[tier]     # sampled families per big shape
     extra = {'quick': 1, 'thorough': 2}[tier]
     bases = base_configs()
     for shape in SHAPES:
@@ -574,7 +577,7 @@ def enumerate_tasks(tier, seed):
         else:
             exhaustive = False
             chosen, seen = [], set()
-            for f in core_families(shape, 2 if tier == 'thorough' else 1, tier == 'thorough'):
+            for f in core_families(shape, 2 if tier == 'thorough' else 1, False):
                 k = family_key(*f)
                 if k not in seen and valid_family(*f):
                     seen.add(k)
@@ -588,7 +591,7 @@ def enumerate_tasks(tier, seed):
                     seen.add(k)
                     chosen.append(f)
                     n += 1
-        counts[shape] = (len(chosen), n_families(shape))
+        counts[shape] = (len(chosen), n_families(shape, 4 if shape in full else 5))
         for f in chosen:
             tasks.append(f + (('perm', seed, extra),))
     return tasks, exhaustive, counts
@@ -666,25 +669,26 @@ def witness_of(v):
 def rep_sortkey(v):
     fam = (v['shape'], v['m1'], v['m2'], v['ov'])
     w = family_weight(fam)
-    return (w, len(v['prog']), v['ctor'], M1_DEPS.index(v['m1'][0]),
-            -1 if v['m2'] is None else M2_DEPS.index(v['m2'][0]),
-            OPS.index(v['op']) if v['op'] in OPS else -1, family_key(*fam), v['cls'], v['prog'])
+    return (w, M1_DEPS.index(v['m1'][0]), -1 if v['m2'] is None else M2_DEPS.index(v['m2'][0]),
+            family_key(*fam), v['cls'], v['ctor'], len(v['prog']),
+            OPS.index(v['op']) if v['op'] in OPS else -1, v['prog'])
 
 
 def minimise(v):
-    """shortest program showing the same discrepancy: try the failing operation alone on a fresh,
-    keyword-less instance (run in this process; the stand-alone replay confirms it afterwards)."""
-    if v['op'] == 'init' or (len(v['prog']) == 1 and not v['ctor']):
+    """canonical shortest program showing the same discrepancy: the first operation (in the order
+    of OPS) that fails alone on a fresh, keyword-less instance of the same class (run in this
+    process; the stand-alone replay confirms it afterwards)."""
+    if v['op'] == 'init':
         return v
-    task = (v['shape'], v['m1'], v['m2'], v['ov'], ('progs', [(v['op'],)]))
+    task = (v['shape'], v['m1'], v['m2'], v['ov'], ('progs', [(op,) for op in OPS]))
     try:
         _n, _k, _c, viols = run_family(task)
     except Exception:
         return v
-    for w in viols:
-        if (w['cls'], w['site'], w['op']) == (v['cls'], v['site'], v['op']) and \
-                (w['got'] < w['lo']) == (v['got'] < v['lo']) and bool(w.get('via')) == bool(v.get('via')):
-            return w
+    same = [w for w in viols if (w['cls'], w['site']) == (v['cls'], v['site']) and w['op'] != 'init'
+            and viol_class(w) == viol_class(v)]
+    if same:
+        return min(same, key=lambda w: OPS.index(w['op']))
     return v
 
 
@@ -722,8 +726,14 @@ def fn_replay(v, clause, witness):
     return src
 
 
+MAX_PER_CLAUSE = 12  # witness classes reported per clause (smallest first); the rest is counted in a note
+CONFIRM = True      # scratch mutation harnesses (in-memory patches) switch the confirmation off
+
+
 def confirm(src):
     """run a replay script stand-alone; True iff it reproduces"""
+    if not CONFIRM:
+        return True
     with tempfile.NamedTemporaryFile('w', suffix='.py', delete=False) as f:
         f.write(src)
         path = f.name
@@ -738,13 +748,13 @@ def confirm(src):
 
 
 # ------------------------------------------------------------------------------------------
-def run(tier, seed):
+def _run(tier, seed):
     B = Bounded(
         "C06",
         rule=("generated class families (chains of 1-4 classes, diamond, two-root 'vee'; a subclass "
               "defining nothing = skipped level) x base dependency sets of m1/m2 over {a, b, 'p:bounds', "
               "'m1'} x on_init x per-(subclass, method) override kind {none, decorated same deps, "
-              "decorated other deps, undecorated}; for every class of the family an instance (plain and "
+              "decorated other deps, undecorated, decorated without watch}; for every class of the family an instance (plain and "
               "with constructor keywords) runs a seeded permutation of all 13 operations plus seeded "
               "programs of 2-3 operations; the smallest families run ALL programs over a 9-operation "
               "core alphabet; function form: 8 Parameter-object dependency lists x all programs; every "
@@ -816,6 +826,13 @@ def run(tier, seed):
             rep['label'], k[1], ','.join(rep['prog']), rep['got'], rep['want'])
         reports.append((clause, witness, fn_replay(rep, clause, witness), len(vs),
                         'f called %d times, expected %d' % (rep['got'], rep['want'])))
+    reports.sort(key=lambda r: (r[0], len(r[1]), r[1]))
+    per_clause, kept = {}, []
+    for r in reports:
+        per_clause[r[0]] = per_clause.get(r[0], 0) + 1
+        if per_clause[r[0]] <= MAX_PER_CLAUSE:
+            kept.append(r)
+    reports = kept
     # ---- confirm every representative stand-alone before reporting it
     with ProcessPoolExecutor(max_workers=8) as ex:
         oks = list(ex.map(confirm, [r[2] for r in reports]))
@@ -825,6 +842,22 @@ def run(tier, seed):
             continue
         B.violation(clause, witness, detail=detail + ' (%d failing cases in this class)' % n, replay=replay)
         B.violations[-1]['count'] = n
+    for clause, n in sorted(per_clause.items()):
+        if n > MAX_PER_CLAUSE:
+            B.note('%s: %d further witness classes suppressed (cap %d per clause)' % (clause, n - MAX_PER_CLAUSE, MAX_PER_CLAUSE))
     for t in tasks[:3]:
         B.sample({'family': family_key(*t[:4]), 'source': family_source(t[0], family_spec(*t[:4]))})
     return B.result()
+
+
+def run(tier, seed):
+    """entry point; leaves the warnings filters and param's logger level as it found them"""
+    import param
+    logger = param.parameterized.get_logger()
+    level = logger.level
+    with warnings.catch_warnings():
+        warnings.simplefilter('ignore')
+        try:
+            return _run(tier, seed)
+        finally:
+            logger.setLevel(level)
